@@ -412,3 +412,59 @@ def _(c):
         and len([r for r in fx if r[0] == "gather_future.add_done_callback"]) == 1
         and [r for r in fx if r[0] == "thread_loop.stop"] == [],
     )
+
+
+# ---- the dispatch depends on the callable that is called, not on what was called before -------------------------
+# Two wrapped objects that are instances of ONE Python class and carry a handler under the same attribute name: a
+# plain function on one, a coroutine function on the other (an instance attribute, a mock, a re-bound method).  Called
+# one after the other from another loop, in either order, each is dispatched by its own kind: "for coroutine methods
+# the caller receives the result or the exception raised, for plain methods the call is queued".
+class _OneWrappedClass:
+    pass
+
+
+HOLDER_PLAIN = ext_class("holder_with_plain_handler", handler=ExtMethod("handler", effect=True))
+HOLDER_CORO = ext_class(
+    "holder_with_coroutine_handler",
+    handler=ExtMethod("handler", effect=True, is_async=True, raises=[ValueError], returns=lambda I, s, a, k: T.opaque.fresh(I, "coro_result")),
+)
+HOLDER_PLAIN.pytype = _OneWrappedClass
+HOLDER_CORO.pytype = _OneWrappedClass
+
+
+def two_objects_of_one_class(first, second, owner_loop, arg, plain_first):
+    r1 = thread.ThreadsafeProxy(first, owner_loop).handler(arg)
+    r2 = thread.ThreadsafeProxy(second, owner_loop).handler(arg)
+    return (r1, r2)
+
+
+def _other_loop_setup(I, b):
+    I.ctx.ghost["running_loop"] = T.ext(OWNER_LOOP).fresh(I, "caller_loop")
+    b["caller_loop"] = I.ctx.ghost["running_loop"]
+
+
+@contract("contracts.thread.two_objects_of_one_class", props=["C20"])
+def _(c):
+    c.arg("owner_loop", T.ext(OWNER_LOOP))
+    c.arg("arg", T.opaque)
+    c.cases(
+        ("plain handler first, coroutine handler second", {"first": T.ext(HOLDER_PLAIN), "second": T.ext(HOLDER_CORO), "plain_first": T.const(True)}),
+        ("coroutine handler first, plain handler second", {"first": T.ext(HOLDER_CORO), "second": T.ext(HOLDER_PLAIN), "plain_first": T.const(False)}),
+    )
+    c.setup = _other_loop_setup
+    c.inline_callees = True
+    c.native_context = _native_thread_context
+    c.requires("pre.owner_loop_open", lambda owner_loop: not owner_loop.is_closed())
+    c.ensures(
+        "post.each_call_is_dispatched_by_the_kind_of_its_own_callable",
+        lambda plain_first, fx: len([r for r in fx if r[0] == "asyncio.run_coroutine_threadsafe"]) == 1
+        and len([r for r in fx if r[0] == "loop.call_soon_threadsafe"]) == 1
+        and [r[0] for r in fx if r[0] in ("asyncio.run_coroutine_threadsafe", "loop.call_soon_threadsafe")]
+        == (["loop.call_soon_threadsafe", "asyncio.run_coroutine_threadsafe"] if plain_first
+            else ["asyncio.run_coroutine_threadsafe", "loop.call_soon_threadsafe"]),
+    )
+    # the plain handler never runs on the caller's path
+    c.ensures(
+        "post.plain_handler_only_queued",
+        lambda fx: [r for r in fx if r[0] == "holder_with_plain_handler.handler"] == [],
+    )
